@@ -36,8 +36,8 @@ type node struct {
 	quoted bool    // kScalar: emit as a quoted string
 }
 
-func sc(raw string) *node  { return &node{kind: kScalar, raw: raw} }
-func str(s string) *node   { return &node{kind: kScalar, raw: s, quoted: true} }
+func sc(raw string) *node   { return &node{kind: kScalar, raw: raw} }
+func str(s string) *node    { return &node{kind: kScalar, raw: s, quoted: true} }
 func list(v ...*node) *node { return &node{kind: kList, vals: v} }
 func mp(kv ...any) *node {
 	n := &node{kind: kMap}
